@@ -19,20 +19,20 @@ TECH = {
     'C03': "static analysis: typestate (action-order language) on the CFG of FSM._ctx_event, effect-freedom of rejecting exits, reaching definitions",
     'C04': "static analysis: ownership of the timer handle, must-pass-through cancel on exit/stop, branch-effect classification of the duration case split",
     'C05': "static analysis: typestate of the init-step protocol, dominance of guards, who-may-call tables, bounded-wait shape",
-    'C06': "static analysis: save/restore protocol by must-pass-through under fault model M1, writer/reader table agreement, time-base unit typing",
+    'C06': "static analysis: save/restore protocol by must-pass-through under fault model M1, writer/reader table agreement, time-base unit typing, timer-handle clearing before delivery",
     'C07': "static analysis: non-emptiness domain for partial operations on the alarm registry, must-call registry protocol",
     'C08': "static analysis: CFG with exceptional and cancellation edges (M1/M1c), linear task ownership (must-use), who-may-call, super-chain, docs<->code",
     'C09': "static analysis: write-once ownership with dominance, no-swallow handler classification against a frozen sink table",
     'C10': "static analysis: loop-cycle must-pass-through (counter/limit), dominance of resets by the idle point, constant folding",
-    'C11': "static analysis: acquire/release pairing on all exits under the any-statement-may-raise fault model M2, ownership and who-may-lift tables",
-    'C12': "static analysis: linear must-use of dequeued items, outcome-arm classification, counter pairing under M2, mode-shape rules",
+    'C11': "static analysis: acquire/release pairing on all exits under the any-statement-may-raise fault model M2, ownership and who-may-lift tables, no-swallow table over the may-deliver call closure",
+    'C12': "static analysis: linear use of dequeued items (at least once and at most once, pruned path search), outcome-arm classification, counter pairing under M2, mode-shape rules",
     'C13': "static analysis: finite abstract evaluation over the 13 weak orderings (exhaustive), literal-table agreement",
     'C14': "static analysis: dominance of the is_ready gate, two-point string-prefix dataflow domain, who-may-pass _reserved",
-    'C15': "static analysis: dominance of the freeze flag by resolve+connect, who-must-call gate, literal<->attribute agreement of the resolver",
-    'C16': "static analysis: typestate of the filter pipeline, finite abstract evaluation on the truthiness domain (Edge: 144 cases), docs<->code",
+    'C15': "static analysis: dominance and order of resolve/connect before the freeze flag, who-must-call gate, literal<->attribute agreement of the resolver, finite abstract evaluation of the signature comparison",
+    'C16': "static analysis: typestate of the filter pipeline, finite abstract evaluation on the truthiness domain (Edge: 144 cases) and on the key-equality domain (DataEdit, incl. pairs of deliveries), docs<->code",
     'C17': "static analysis: reaching definitions (only validated values reach set_output / sdata), stage-order and effect-free rejection on the CFG",
-    'C18': "static analysis: def-use agreement of output and repeat number, effect-free exits, keyword map of the implicit Repeat",
-    'C19': "static analysis: regex AST <-> unit letter <-> scale tuple agreement, constant folding, branch classification",
+    'C18': "static analysis: def-use agreement of output and repeat number, effect-free exits, keyword map of the implicit Repeat, key-absence dataflow for spread-plus-keyword calls",
+    'C19': "static analysis: regex AST <-> unit letter <-> scale tuple agreement, constant folding, branch classification, abstract evaluation of the fraction test over the pattern's separator class",
     'C20': "static analysis: reaching definitions (every output passes the modulo reduction), handler return/operand table, signatures",
 }
 
